@@ -116,6 +116,7 @@ Proof.
   - destruct (_ && _); [|apply Cv_refl].
     eapply Cv_trans; [apply Cv_upd_node|]. eapply Cv_trans; [apply Cv_notify|apply Cv_emit].
   - destruct (_ && _); [apply Cv_sched_at|apply Cv_refl].
+  - destruct (_ && _); [apply Cv_sched_at|apply Cv_refl].
 Qed.
 
 Lemma Cv_do_ops T g i st : forall os opi w, Cv w (do_ops T g i st opi os w).
